@@ -9,7 +9,8 @@
 From Coq Require Import ZArith QArith Qround Lia Lqa List Bool PArith.
 From Basana Require Import Num.DecQ Num.DecQProofs Exchange.Model Exchange.AcctProofs Exchange.StepProofs
   Exchange.OpProofs Exchange.FeeProofs Exchange.OrderProofs Exchange.LifeProofs Exchange.Prims Exchange.FillBounds
-  Exchange.Structure Exchange.FillTimes Exchange.NoPartial Exchange.IndexProofs Exchange.FirstBar Exchange.Complete.
+  Exchange.Structure Exchange.FillTimes Exchange.GridProofs Exchange.NoPartial Exchange.IndexProofs Exchange.FirstBar
+  Exchange.Complete.
 Import ListNotations.
 Open Scope Q_scope.
 
@@ -214,3 +215,160 @@ Proof.
   exact (market_always_proposes c o0 b Hk (NP_pending c o0 Ka (Hn j o0 Eg) Hop) W).
 Qed.
 End Hist.
+
+(* ---------------------------------------------------------------------------------------------- *)
+(* limit orders: "... a limit order by the first bar whose range reaches its limit" *)
+Section LimitHist.
+Variable c : cfg.
+
+(* what acceptance established, and no fill changes: the amount is on the base grid of the pair, limit prices are positive *)
+Definition LA (o : order) : Prop :=
+  (exists pi, get_pair_info c (o_pair o) = Ok pi /\ on_grid (fst pi) (o_amount o)) /\
+  (forall lp, o_kind o = KLimit lp -> 0 < lp).
+
+Lemma LA_fresh o : accepted c o -> LA o.
+Proof.
+  intros (pi & Epi & Eva). unfold validate in Eva.
+  destruct (Qle_bool (o_amount o) 0); [discriminate Eva|].
+  destruct (on_grid_b (fst pi) (o_amount o)) eqn:Eg; cbn [negb] in Eva; [|discriminate Eva].
+  split; [exists pi; split; [exact Epi | exact (on_grid_b_true _ _ Eg)]|].
+  intros lp Hk. rewrite Hk in Eva.
+  destruct (Qle_bool lp 0) eqn:E0; [discriminate Eva|]. apply Qle_bool_false' in E0. exact E0.
+Qed.
+
+Definition LI (s : st) : Prop := forall i o, nth_error (s_orders s) i = Some o -> LA o.
+
+Lemma LI_step s o : cfg_ok c -> op_ok o -> WF s -> LI s -> LI (fst (step c s o)).
+Proof.
+  intros Hc Ho Hw Hi.
+  assert (S1 : ST (fun _ _ => True) LA c s (fst (step c s o))).
+  { apply step_ST; try assumption.
+    - intros x h H. exact H.
+    - intros x H. exact H.
+    - intros x ids H. exact H.
+    - intros; exact I.
+    - intros p w b _ l x _ _ _ hit pi bv0 qv0 bv qv fee _ _ _ _ H. exact H. }
+  destruct S1 as [Sa Sb]. intros i x Hx.
+  destruct (nth_error (s_orders s) i) as [o0|] eqn:E0.
+  - destruct (Sa i o0 E0) as (o1 & E1 & _ & _ & HJ). rewrite E1 in Hx. inversion Hx; subst o1. exact (HJ (Hi i o0 E0)).
+  - apply nth_error_None in E0. destruct (Sb i x Hx E0) as [_ Ha]. exact (LA_fresh x Ha).
+Qed.
+
+Theorem run_LI ops : forall s, cfg_ok c -> ops_ok ops -> WF s -> LI s -> LI (run c s ops).
+Proof.
+  unfold run. induction ops as [|op r IH]; intros s Hc Ho Hw Hi; cbn [fold_left]; [exact Hi|].
+  inversion Ho as [|? ? Ho1 Hor]; subst.
+  apply IH; try assumption; [exact (proj1 (step_prims c s op Hc Ho1 Hw)) | apply LI_step; assumption].
+Qed.
+
+Definition limit_outcome (s' : st) (j : nat) (o0 : order) (b : bar) : Prop :=
+  exists o', get_order s' j = Some o' /\
+    ((is_open o' = false /\ filled o' == o_amount o0) \/
+     (is_open o' = true /\ o_fb o' = o_fb o0 /\
+      ((exists l, rounds_to_nothing c l o0 b) \/ (exists s_mid, refused_for_funds c s_mid o0)))).
+
+Lemma process_all_limit_outcome ids p when b : forall s s' l',
+  NoDup ids -> WF s -> process_all c s None ids p when b = Done s' l' ->
+  forall j o0 lp bp qp, In j ids -> get_order s j = Some o0 -> is_open o0 = true -> o_kind o0 = KLimit lp -> 0 < lp ->
+  bar_ok b -> get_pair_info c (o_pair o0) = Ok (bp, qp) -> on_grid bp (o_amount o0) -> on_grid bp (o_fb o0) ->
+  0 < pending o0 -> reaches_limit o0 b lp -> pair_eqb (o_pair o0) p = true ->
+  limit_outcome s' j o0 b.
+Proof.
+  induction ids as [|h r IH]; intros s s' l' Hnd Hw H j o0 lp bp qp Hin Eg Hop Hk Hlp Hb Epi Ga Gf Hpe Hr Hp; [destruct Hin|].
+  cbn [process_all] in H. inversion Hnd as [|? ? Hnotin Hndr]; subst.
+  (* once j has had its turn, nothing that follows touches its record *)
+  assert (REST : forall s1 l1 o1, WF s1 -> liq_ok l1 -> process_all c s1 l1 r p when b = Done s' l' ->
+                   get_order s1 j = Some o1 -> ~ In j r \/ True -> (is_open o1 = false) -> get_order s' j = Some o1).
+  { intros s1 l1 o1 W1 L1 X G1 _ C1.
+    destruct (rp_process_all c s1 r p when b s1 l1 (R_of_WF c s1 W1) L1) as [(_ & _ & Fn) _].
+    rewrite X in Fn. cbn [sof] in Fn. exact (Fn j o1 G1 C1). }
+  destruct (get_order s h) as [oh|] eqn:Egh.
+  2:{ destruct Hin as [E|Hin]; [subst h; congruence|].
+      exact (IH s s' l' Hndr Hw H j o0 lp bp qp Hin Eg Hop Hk Hlp Hb Epi Ga Gf Hpe Hr Hp). }
+  destruct (is_open oh && pair_eqb (o_pair oh) p) eqn:Eop.
+  2:{ destruct Hin as [E|Hin]; [subst h; assert (Eo : oh = o0) by congruence; subst oh; rewrite Hop, Hp in Eop; discriminate Eop|].
+      exact (IH s s' l' Hndr Hw H j o0 lp bp qp Hin Eg Hop Hk Hlp Hb Epi Ga Gf Hpe Hr Hp). }
+  assert (Eid : o_id oh = h) by (destruct Hw as (Ho & _); destruct (Ho _ _ Egh); assumption).
+  assert (Hg : get_order s (o_id oh) = Some oh) by (rewrite Eid; exact Egh).
+  apply andb_true_iff in Eop. destruct Eop as [Hopn _].
+  assert (Hwo : was_open s (o_id oh)).
+  { intros x Hx. unfold get_order in Hg. rewrite Hg in Hx. inversion Hx; subst. exact Hopn. }
+  destruct (rp_process_order c s s None oh p when b (R_of_WF c s Hw) Hg Hwo I) as [R1 L1].
+  destruct (process_order c s None oh p when b) as [s1 l1|s1 e1] eqn:Ep; cbn [obind sof] in *; [|discriminate H].
+  destruct R1 as (W1 & _).
+  pose proof (process_order_keeps_inf c s oh p when b s1 l1 Ep) as El1. subst l1.
+  destruct (Nat.eq_dec h j) as [Ehj|Hne].
+  - assert (Eo : oh = o0) by (rewrite Ehj in Egh; congruence). subst oh.
+    assert (How : OW o0) by (destruct Hw as (Ho & _); destruct (Ho _ _ Egh); assumption).
+    destruct (limit_order_filled_when_reached_funds_permitting c s o0 p when b lp bp qp s1 None Hg Hop Hk Hlp Hb Epi Ga Gf How Hpe Hr Ep)
+      as (o1 & G1 & Out).
+    rewrite Eid, Ehj in G1.
+    destruct Out as [[C1 F1]|(O1 & F1 & W0)].
+    + exists o1. split; [exact (REST s1 None o1 W1 I H G1 (or_intror I) C1)|]. left. split; assumption.
+    + (* left open and untouched: it is not listed again, and the rest of the traversal does not touch its record *)
+      clear REST. assert (Hnj : ~ In j r) by (rewrite <- Ehj; exact Hnotin).
+      assert (W : (exists l, rounds_to_nothing c l o0 b) \/ (exists s_mid, refused_for_funds c s_mid o0))
+        by (destruct W0 as [X|X]; [left; exists None; exact X | right; exists s; exact X]).
+      assert (Gen : forall r2 s2 l2, ~ In j r2 -> WF s2 -> process_all c s2 None r2 p when b = Done s' l2 ->
+                      get_order s2 j = Some o1 -> limit_outcome s' j o0 b).
+      { clear IH H Hnj. induction r2 as [|h2 r2 IH2]; intros s2 l2 Hn2 W2 X G2; cbn [process_all] in X.
+        - inversion X; subst. exists o1. split; [exact G2|]. right. split; [exact O1|]. split; [exact F1 | exact W].
+        - assert (Hn3 : ~ In j r2) by (intros Y; apply Hn2; right; exact Y).
+          assert (Hne2 : h2 <> j) by (intros Y; apply Hn2; left; exact Y).
+          destruct (get_order s2 h2) as [o2|] eqn:E2; [|exact (IH2 s2 l2 Hn3 W2 X G2)].
+          destruct (is_open o2 && pair_eqb (o_pair o2) p) eqn:Eop2; [|exact (IH2 s2 l2 Hn3 W2 X G2)].
+          assert (Eid2 : o_id o2 = h2) by (destruct W2 as (Ho & _); destruct (Ho _ _ E2); assumption).
+          assert (Hg2 : get_order s2 (o_id o2) = Some o2) by (rewrite Eid2; exact E2).
+          apply andb_true_iff in Eop2. destruct Eop2 as [Hopn2 _].
+          assert (Hwo2 : was_open s2 (o_id o2)).
+          { intros x Hx. unfold get_order in Hg2. rewrite Hg2 in Hx. inversion Hx; subst. exact Hopn2. }
+          destruct (rp_process_order c s2 s2 None o2 p when b (R_of_WF c s2 W2) Hg2 Hwo2 I) as [R3 _].
+          destruct (process_order c s2 None o2 p when b) as [s3 l3|s3 e3] eqn:Ep2; cbn [obind sof] in *; [|discriminate X].
+          destruct R3 as (W3 & _). pose proof (process_order_keeps_inf c s2 o2 p when b s3 l3 Ep2) as El3. subst l3.
+          pose proof (kx_process_order j (Some o1) c s2 None o2 p when b) as K. rewrite Eid2 in K. specialize (K Hne2 G2).
+          rewrite Ep2 in K. unfold kx, Kx in K. cbn [sof] in K. exact (IH2 s3 l2 Hn3 W3 X K). }
+      exact (Gen r s1 l' Hnj W1 H G1).
+  - destruct Hin as [E|Hin]; [congruence|].
+    pose proof (kx_process_order j (Some o0) c s None oh p when b) as K. rewrite Eid in K. specialize (K Hne Eg).
+    rewrite Ep in K. unfold kx, Kx in K. cbn [sof] in K.
+    exact (IH s1 s' l' Hndr W1 H j o0 lp bp qp Hin K Hop Hk Hlp Hb Epi Ga Gf Hpe Hr Hp).
+Qed.
+
+(* C04, whole history: with unlimited liquidity, a bar of its pair whose range reaches the limit fills an open limit order
+   completely -- or, if the fill rounds to nothing or funds are lacking when its turn comes, leaves it open and untouched *)
+Theorem limit_orders_filled_by_a_reaching_bar initial ops p when b s' :
+  c_liq c = InfLiq -> ops_ok (ops ++ [OBar p when b]) -> bar_ok b ->
+  let s := run c (init_st initial) ops in
+  step c s (OBar p when b) = (s', ROk) ->
+  forall j o0 lp, get_order s j = Some o0 -> is_open o0 = true -> o_kind o0 = KLimit lp ->
+  pair_eqb (o_pair o0) p = true -> reaches_limit o0 b lp ->
+  limit_outcome s' j o0 b.
+Proof.
+  intros Hinf Ho Hbar s Hs j o0 lp Eg Hop Hk Hp Hr.
+  assert (Hc : cfg_ok c) by (unfold cfg_ok; rewrite Hinf; exact I).
+  apply Forall_app in Ho. destruct Ho as [Ho Hb]. inversion Hb as [|? ? Hb1 _]; subst. cbn [op_ok] in Hb1.
+  assert (Hw : WF s) by (apply (run_prims c ops (init_st initial) Hc Ho (WF_init initial))).
+  assert (Hi : IdxInv s) by (apply run_IdxInv; [exact Hc | exact Ho | apply WF_init | apply IdxInv_init]).
+  assert (Hl : LI s) by (apply run_LI; [exact Hc | exact Ho | apply WF_init | intros k x Hk'; destruct k; discriminate Hk']).
+  assert (Hg : GridProofs.GI c s) by (apply run_GI; [exact Hc | exact Ho | apply WF_init | apply GI_init]).
+  pose proof (open_orders_have_something_pending c initial ops j o0 Hc Ho Eg Hop) as Hpe.
+  destruct (Hl j o0 Eg) as [([bp qp] & Epi & Ga) Hlp]. specialize (Hlp lp Hk). cbn [fst] in Ga.
+  assert (Gf : on_grid bp (o_fb o0)).
+  { destruct (Hg j o0 Eg) as (F & Sb & _ & _). rewrite Sb.
+    apply (fsum_on_grid c (o_pair o0) (bp, qp) f_base fst (o_fills o0) Epi); [|exact F].
+    intros f (pi & E & A & _). rewrite Epi in E. inversion E; subst pi. exact A. }
+  cbn [step] in Hs. destruct (on_bar c s p when b) as [s2 u2|s2 e2] eqn:Eb; inversion Hs; subst s2. clear Hs.
+  unfold on_bar, bump_reindex in Eb. rewrite Hinf in Eb.
+  set (s1 := set_open_idx (set_close_now s (set_pair (s_close s) p (b_close b)) (Some when))
+                          (s_open_idx (set_close_now s (set_pair (s_close s) p (b_close b)) (Some when)))
+                          (S (s_reidx (set_close_now s (set_pair (s_close s) p (b_close b)) (Some when))))) in *.
+  assert (W1 : WF s1) by exact Hw.
+  destruct (process_all c s1 None (s_open_idx s1) p when b) as [s2 l2|s2 e2] eqn:Epa; cbn [obind] in Eb; [|discriminate Eb].
+  inversion Eb; subst s'.
+  destruct Hi as (Ha & Hnd & _).
+  destruct (process_all_limit_outcome (s_open_idx s1) p when b s1 s2 l2 Hnd W1 Epa j o0 lp bp qp (Ha j o0 Eg Hop) Eg Hop Hk Hlp
+              Hbar Epi Ga Gf Hpe Hr Hp) as (o' & G & Out).
+  exists o'. split; [|exact Out].
+  unfold finish_reindex. match goal with |- context [if ?f then _ else _] => destruct f end; exact G.
+Qed.
+End LimitHist.
